@@ -182,6 +182,10 @@ def correspond(ctx):
             if i % 60 == 0 and i:
                 slide = prs.slides.add_slide(layout)
                 tbl = None
+                if (done // per_deck) % 2 == 0:
+                    # the SAME Presentation object is saved in between (every other deck): what a later save writes is the
+                    # text as it is then, not what an earlier save serialised
+                    prs.save(io.BytesIO()); ctx.count("intermediate-saves-of-the-same-object")
             level = rng.choice(["frame", "shape", "cell", "para", "para", "run", "run"])
             s = gen_str(rng)
             c = Case()
